@@ -8,5 +8,8 @@ CHECK = {
         unit("audit-format", "audit", ["audit/c11_format_test.go"], "^TestVerif_C11_",
              quick={"checks": 20000, "shards": 1, "cap": 600},
              thorough={"checks": 150000, "shards": 8, "cap": 1800}),
+        unit("broker-order", "vault", ["vault/c11_test.go"], "^TestVerif_C11_",
+             quick={"checks": 1500, "shards": 1, "cap": 900},
+             thorough={"checks": 8000, "shards": 16, "cap": 3000}),
     ],
 }
